@@ -36,6 +36,31 @@ impl<'a> Scripted<'a> {
     pub fn new(data: &'a [u8], script: &'a [Step], default_max: usize) -> Self {
         Self { data, pos: 0, script, reads: 0, trace: String::new(), default_max }
     }
+    /// reader positioned at `start` of a longer stream (e.g. the second frame of a capture)
+    pub fn at(data: &'a [u8], start: usize, script: &'a [Step], default_max: usize) -> Self {
+        Self { data, pos: start, script, reads: 0, trace: String::new(), default_max }
+    }
+}
+
+/// decode `frame` from a reader that holds `prefix ++ frame` and is positioned after the prefix
+pub fn eval_offset(prefix: &[u8], b: &[u8], script: &[Step], default_max: usize) -> Vec<(String, String)> {
+    let class = refdec::class_of(b);
+    let want = match dec_bytes(b) {
+        Ok(w) => w,
+        Err(p) => return vec![(format!("C19/panic/{class}"), format!("from_bytes panicked: {p}"))],
+    };
+    let mut stream = prefix.to_vec();
+    stream.extend_from_slice(b);
+    let got = catch_unwind(AssertUnwindSafe(|| {
+        let mut s = Scripted::at(&stream, prefix.len(), script, default_max);
+        let r = Frame::from_reader(&mut s).map_err(|e| format!("{e:?}"));
+        render(&r)
+    }));
+    match got {
+        Err(_) => vec![(format!("C19/panic/{class}"), format!("from_reader panicked: {}", last_panic()))],
+        Ok(g) if g != want => vec![(format!("C19/reader_offset_differs/{class}"), format!("slice decode gives `{}`, decode from a reader positioned {} bytes into a stream gives `{}`", short(&want), prefix.len(), short(&g)))],
+        _ => vec![],
+    }
 }
 
 impl Read for Scripted<'_> {
@@ -133,7 +158,12 @@ fn script_from(v: &Value) -> Vec<Step> {
 
 pub fn replay_c19(v: &Value) -> Vec<Failure> {
     let Some(b) = bits::unhex(v.get("hex").and_then(|h| h.as_str()).unwrap_or("")) else { return vec![] };
-    let sigs = if v.get("kind").and_then(|k| k.as_str()) == Some("purity") {
+    let sigs = if v.get("kind").and_then(|k| k.as_str()) == Some("offset") {
+        let prefix = v.get("prefix").and_then(|h| h.as_str()).and_then(bits::unhex).unwrap_or_default();
+        let script = script_from(v.get("script").unwrap_or(&Value::Null));
+        let dm = v.get("default_max").and_then(|x| x.as_u64()).unwrap_or(64) as usize;
+        eval_offset(&prefix, &b, &script, dm)
+    } else if v.get("kind").and_then(|k| k.as_str()) == Some("purity") {
         let others: Vec<Vec<u8>> = v.get("between").and_then(|x| x.as_array()).map(|a| a.iter().filter_map(|h| h.as_str().and_then(bits::unhex)).collect()).unwrap_or_default();
         eval_purity(&b, &others)
     } else {
@@ -280,6 +310,17 @@ pub fn run_c19(ctx: &mut Ctx) -> ! {
                 }
                 if st.samples.len() < 4 {
                     st.samples.push(json!({"frame": bits::hex(b), "class": class, "fragment": frag, "benign_call_trace": trace, "injections": "one/two/three Interrupted before each read call, all pairs"}));
+                }
+            }
+            // reader positioned inside a longer stream (earlier frames before this one)
+            for (pi, plen) in [7usize, 14, 1, 21].iter().enumerate() {
+                let prefix: Vec<u8> = pool[(fi + 3 + pi) % pool.len()].iter().cycle().take(*plen).copied().collect();
+                for (script, frag) in [(vec![], 64usize), (vec![Step::Read(1), Step::Interrupt, Step::Read(2)], 1)] {
+                    st.eval();
+                    st.nontrivial_enum += 1;
+                    for (sig, msg) in eval_offset(&prefix, b, &script, frag) {
+                        st.fail(Failure { sig, msg: format!("{msg} (frame {}, prefix {})", bits::hex(b), bits::hex(&prefix)), replay: json!({"kind":"offset","hex":bits::hex(b),"prefix":bits::hex(&prefix),"script":script_json(&script),"default_max":frag}) });
+                    }
                 }
             }
             // purity
